@@ -10,6 +10,7 @@ from __future__ import annotations
 
 from functools import lru_cache
 
+from ..builder import NAMES3, build_ops, replay_sequence, run_sequences
 from ..graphs import G, disjoint_triples, enum_L, enum_O
 from ..runner import Res
 from ..scm import SCM, World
@@ -32,7 +33,25 @@ def _universe(tier):
 def shards(tier):
     n = len(_universe(tier))
     size = 16 if tier == "quick" else 32
-    return [(i, min(i + size, n)) for i in range(0, n, size)]
+    out = [(i, min(i + size, n)) for i in range(0, n, size)]
+    # builder phase: one live graph object grown edge by edge, every (X, Y, Z) asked again after every insertion
+    return out + [("build", i) for i in range(len(build_ops(NAMES3)))]
+
+
+def _builder_judge(res, seed):
+    def judge(y, g, hist):
+        models = [("W2", SCM(g, salt=f"s{seed}"))]
+        before = len(res.violations)
+        for x, yy, z in disjoint_triples(g.nodes):
+            case = {"builder_ops": hist, "graph": g.to_json(), "X": list(x), "Y": list(yy), "Z": list(z)}
+            check_query(res, g, y, x, yy, z, models, case)
+        if len(res.violations) > before:
+            res.outcomes["wrong_after_mutation"] += 1
+            return False
+        res.outcomes["builder_step_ok"] += 1
+        return True
+
+    return judge
 
 
 def describe(tier):
@@ -44,7 +63,8 @@ def describe(tier):
         )
         + "; every (X, Y, Z) pairwise disjoint with Y, Z non-empty and X possibly empty; witness profiles: all-binary + "
         + ("two ternary profiles" if tier == "thorough" else "one ternary node")
-        + "; every value assignment",
+        + "; every value assignment; builder sequences: every sequence of 3 edge insertions over 3 names on one live graph "
+        "object (all three nodes present from the start), every (X, Y, Z) after every insertion",
         "rule": "state = (graph, X, Y, Z, profile); transition = one IDC call whose estimand is evaluated on the witness "
         "SCM for every assignment and compared with P(y,z|do x)/P(z|do x) by truncated factorisation",
         "assumptions": [
@@ -124,8 +144,11 @@ def explore_graph(res: Res, g: G, tier, seed, only=None):
 
 
 def work(shard, tier, seed):
-    lo, hi = shard
     res = Res()
+    if shard[0] == "build":
+        res.states += run_sequences(shard[1], 3, _builder_judge(res, seed), names=NAMES3, start_nodes=NAMES3)
+        return res
+    lo, hi = shard
     for g in _universe(tier)[lo:hi]:
         explore_graph(res, g, tier, seed)
     return res
@@ -136,6 +159,9 @@ def replay(case, clause=None):
 
     g = G.from_json(case["graph"])
     res = Res()
+    if "builder_ops" in case:
+        replay_sequence(case["builder_ops"], _builder_judge(res, int(os.environ.get("VERIF_SEED", "0") or 0)))
+        return [v for v in res.violations if (clause is None or v["clause"] == clause) and all(v["input"].get(k) == case[k] for k in ("X", "Y", "Z"))][:1]
     explore_graph(
         res, g, "thorough", int(os.environ.get("VERIF_SEED", "0") or 0), only=[case["X"], case["Y"], case["Z"]]
     )
